@@ -13,6 +13,7 @@ import (
 	"sync"
 	"testing"
 	"time"
+	"verif/harness/reflabel"
 
 	"github.com/insomniacslk/dhcp/dhcpv4"
 	"github.com/insomniacslk/dhcp/dhcpv6"
@@ -262,6 +263,32 @@ func judge(r *mon.Rec, kind string, idx int, s subject, rng *rand.Rand) {
 	}
 }
 
+// genericize replaces some of the options of a list (and of the lists nested in identity associations, addresses,
+// prefixes and 4rd containers) by *OptionGeneric values with the same code and octets.
+func genericize(rng *rand.Rand, l *dhcpv6.Options) {
+	for i, o := range *l {
+		switch x := o.(type) {
+		case *dhcpv6.OptIANA:
+			genericize(rng, &x.Options.Options)
+		case *dhcpv6.OptIAPD:
+			genericize(rng, &x.Options.Options)
+		case *dhcpv6.OptIATA:
+			genericize(rng, &x.Options.Options)
+		case *dhcpv6.OptIAAddress:
+			genericize(rng, &x.Options.Options)
+		case *dhcpv6.OptIAPrefix:
+			genericize(rng, &x.Options.Options)
+		case *dhcpv6.Opt4RD:
+			genericize(rng, &x.Options)
+		}
+		if rng.IntN(2) == 0 {
+			if _, isGen := o.(*dhcpv6.OptionGeneric); !isGen && o.Code() != dhcpv6.OptionRelayMsg {
+				(*l)[i] = &dhcpv6.OptionGeneric{OptionCode: o.Code(), OptionData: o.ToBytes()}
+			}
+		}
+	}
+}
+
 func isTypedFn(typed map[int]string) func(int) bool {
 	return func(c int) bool { _, ok := typed[c]; return ok }
 }
@@ -314,6 +341,13 @@ func subjectFor(r *mon.Rec, kind string, idx int, typed map[int]string) subject 
 			g := gen6.New(rng, isTypedFn(typed))
 			g.Budget = 3 + rng.IntN(12)
 			m, _ := g.Chain(rng.IntN(3), 0)
+			if rng.IntN(3) == 0 {
+				// an application that builds its options from configuration as code + octets: options of codes the
+				// library has types for, held in their generic form, at the top level and inside the containers
+				if im, err := m.GetInnerMessage(); err == nil && im != nil {
+					genericize(rng, &im.Options.Options)
+				}
+			}
 			return opsOf(m)
 		}, true}
 	case "v6dec":
@@ -348,6 +382,48 @@ func subjectFor(r *mon.Rec, kind string, idx int, typed map[int]string) subject 
 			g.NoV4 = true
 			o, _ := g.AnyOption(2)
 			return opsOf(o)
+		}, true}
+	case "labels":
+		// a label set parsed from bytes their encoder would not have written (compressed, partial, many pointers, names
+		// at the length limit), possibly edited by its owner.  Besides the read-only methods there is one operation that
+		// is the identity on the value: put the parsed names back, encode, re-apply the edit -- what it returns must not
+		// depend on which reads were made before it.
+		return subject{"parsed label set, edited by its owner", func() []op {
+			rng := seedRng()
+			var w []byte
+			switch rng.IntN(4) {
+			case 0:
+				w = reflabel.Boundary(rng)
+			case 1:
+				w = reflabel.ManyPointers(rng)
+			case 2:
+				w = []byte{3, 'f', 'o', 'o', 3, 'c', 'o', 'm', 0, 3, 'b', 'a', 'r', 0xC0, byte(4 * rng.IntN(2)), 4, 'h', 'o', 's', 't'}
+			default:
+				w = reflabel.Web(rng)
+			}
+			l, err := rfc1035label.FromBytes(w)
+			if err != nil || len(l.Labels) == 0 {
+				return nil
+			}
+			parsed := append([]string{}, l.Labels...)
+			edited := append([]string{}, parsed...)
+			switch rng.IntN(4) {
+			case 0: // no edit
+			case 1:
+				edited[rng.IntN(len(edited))] = "edited.example"
+			case 2:
+				edited = append(edited, "appended.example")
+			default:
+				edited = edited[:len(edited)-1]
+			}
+			l.Labels = append([]string{}, edited...)
+			restore := op{"restore-names+ToBytes+re-edit", func() string {
+				l.Labels = append([]string{}, parsed...)
+				b := l.ToBytes()
+				l.Labels = append([]string{}, edited...)
+				return fmt.Sprintf("%x", b)
+			}}
+			return opsOf(l, restore)
 		}, true}
 	case "duid":
 		return subject{"standalone DUID", func() []op {
@@ -465,7 +541,7 @@ func opt4(r *rand.Rand) []op {
 	return ops
 }
 
-var kinds = []string{"v4gen", "v4dec", "v6gen", "v6dec", "v6dec-nc", "opt6", "duid", "opt4", "opt4"}
+var kinds = []string{"v4gen", "v4dec", "v6gen", "v6dec", "v6dec-nc", "opt6", "duid", "opt4", "opt4", "labels"}
 
 // raceRun: two goroutines run the same read-only call list on one value concurrently (only meaningful under -race).
 func raceRun(s subject) {
@@ -476,6 +552,9 @@ func raceRun(s subject) {
 		go func() {
 			defer wg.Done()
 			for _, o := range ops {
+				if strings.HasPrefix(o.path, "restore-") {
+					continue // writes by design (and puts everything back): not for two goroutines at once
+				}
 				safe(o.fn)
 			}
 		}()
